@@ -1,6 +1,7 @@
 package sim
 
 import (
+	"fmt"
 	"strings"
 
 	"pgregory.net/rapid"
@@ -11,7 +12,8 @@ import (
 // Generators. rapid is the sole choice source; everything drawn here ends up
 // in the explicit Case, so execution never consults a PRNG.
 
-var fieldPool = []string{"a", "b", "c", "all", "so", "Z", "~t", "f", "a_rather_long_field_name_to_get_multibyte_lengths_in_the_fields_section_0123456789"}
+var fieldPool = []string{"a", "b", "c", "all", "so", "Z", "~t", "f", "a_rather_long_field_name_to_get_multibyte_lengths_in_the_fields_section_0123456789",
+	"n" + strings.Repeat("_200_byte_field_name", 10)}
 
 // vocabulary: empty, shared prefixes, binary, high bytes, long; no 0xff (doc
 // value contract) except the last entry, which is only used in non-DV fields.
@@ -19,6 +21,9 @@ var vocab = []string{
 	"", "a", "ab", "abc", "b", "ba", "c", "cat", "dog", "\x00", "\x00\x01", "\xfe", "z\xc3\xa9",
 	"zz", "m", "mn", strings.Repeat("long-term-", 7), "\xff\x01",
 }
+
+// extreme terms, used only when a case draws the "extremes" switch
+var vocabExtreme = []string{strings.Repeat("very-long-term/", 70), strings.Repeat("x", 128), strings.Repeat("y", 127), "a\x00", "ab\x00\x00"}
 
 const vocabNoFF = 17 // vocab[:vocabNoFF] contains no 0xff byte
 
@@ -38,6 +43,7 @@ type WorldOpts struct {
 	NoIDPct              int  // percentage of builds without the injected _id field (default 5)
 	FewTerms             bool // small vocabulary: dense postings lists
 	MoreDV               bool // bias towards doc-value fields
+	NoExtremes           bool // never draw the rare extreme value ranges (fault enumerations keep workloads small)
 }
 
 func (o *WorldOpts) defaults() {
@@ -56,10 +62,12 @@ func (o *WorldOpts) defaults() {
 }
 
 type schema struct {
-	fields []string
-	dv     map[string]bool
-	terms  []string
-	locPct int
+	noXXL   bool // set while generating templates of repeated blocks
+	extreme bool
+	fields  []string
+	dv      map[string]bool
+	terms   []string
+	locPct  int
 }
 
 func genSchema(t *rapid.T, o *WorldOpts) *schema {
@@ -91,6 +99,20 @@ func genSchema(t *rapid.T, o *WorldOpts) *schema {
 			s.dv[f] = true
 		}
 	}
+	// swarm switch "extremes" (rare): value ranges ordinary cases never reach -
+	// >127 fields (two-byte field ids), 32-bit-wide frequencies, positions and
+	// offsets, kilobyte terms, 70 kB / 200 kB stored values
+	s.extreme = !o.NoExtremes && rapid.IntRange(0, 59).Draw(t, "extremes") == 0
+	if s.extreme && rapid.IntRange(0, 2).Draw(t, "manyfields") == 0 {
+		n := rapid.SampledFrom([]int{126, 127, 128, 129, 130, 260}).Draw(t, "nmany")
+		for i := 0; i < n; i++ {
+			name := fmt.Sprintf("m%03d", i)
+			s.fields = append(s.fields, name)
+			if i%3 == 0 {
+				s.dv[name] = true
+			}
+		}
+	}
 	nt := rapid.IntRange(2, 9).Draw(t, "nterms")
 	if o.FewTerms {
 		nt = rapid.IntRange(1, 3).Draw(t, "nterms-few")
@@ -98,6 +120,9 @@ func genSchema(t *rapid.T, o *WorldOpts) *schema {
 	t0 := rapid.IntRange(0, len(vocab)-1).Draw(t, "term0")
 	for i := 0; i < nt; i++ {
 		s.terms = append(s.terms, vocab[(t0+i*3)%len(vocab)])
+	}
+	if s.extreme {
+		s.terms = append(s.terms, rapid.SampledFrom(vocabExtreme).Draw(t, "xterm"))
 	}
 	s.locPct = rapid.SampledFrom([]int{0, 0, 30, 60, 100}).Draw(t, "locpct")
 	if o.NoLocs {
@@ -118,10 +143,12 @@ func (s *schema) dvList() []string {
 
 var valLens = []int{0, 0, 1, 2, 3, 5, 6, 7, 8, 9, 10, 11, 12, 13, 14, 20, 40}
 
-func genValue(t *rapid.T) model.Bytes {
+func genValue(t *rapid.T, s *schema) model.Bytes {
 	cls := rapid.IntRange(0, 99).Draw(t, "valcls")
 	n := 0
 	switch {
+	case s.extreme && !s.noXXL && cls < 6:
+		n = rapid.SampledFrom([]int{65535, 65536, 70000, 131072, 200000}).Draw(t, "vallenXXL")
 	case cls < 90:
 		n = rapid.SampledFrom(valLens).Draw(t, "vallen")
 	case cls < 98:
@@ -144,6 +171,17 @@ func genLoc(t *rapid.T, s *schema) model.Loc {
 		S: rapid.SampledFrom([]int{0, 1, 5, 127, 128, 16383, 16384, 70000}).Draw(t, "start"),
 	}
 	l.E = l.S + rapid.IntRange(0, 9).Draw(t, "len")
+	if s.extreme && rapid.IntRange(0, 3).Draw(t, "xloc") == 0 {
+		big := rapid.SampledFrom([]int{1<<31 - 1, 1 << 31, 1<<32 - 1, 1 << 32, 1<<40 + 7}).Draw(t, "bigval")
+		switch rapid.IntRange(0, 2).Draw(t, "which") {
+		case 0:
+			l.P = big
+		case 1:
+			l.S, l.E = big, big+3
+		default:
+			l.E = l.S + big
+		}
+	}
 	if rapid.IntRange(0, 3).Draw(t, "locfield") == 0 {
 		l.F = rapid.SampledFrom(s.fields).Draw(t, "locname")
 	}
@@ -154,7 +192,7 @@ func genField(t *rapid.T, s *schema) model.Field {
 	f := model.Field{Name: rapid.SampledFrom(s.fields).Draw(t, "fname")}
 	if f.Name == "so" {
 		f.Store = true
-		f.Val = genValue(t)
+		f.Val = genValue(t, s)
 		return f
 	}
 	nterms := rapid.IntRange(0, 4).Draw(t, "nfterms")
@@ -171,6 +209,16 @@ func genField(t *rapid.T, s *schema) model.Field {
 			}
 		}
 		mt.N = len(mt.L) + rapid.SampledFrom([]int{0, 0, 0, 1, 2, 200}).Draw(t, "xfreq")
+		if s.extreme && rapid.IntRange(0, 5).Draw(t, "xxfreq") == 0 {
+			big := rapid.SampledFrom([]int{16383, 16384, 70000, 1<<31 - 1, 1 << 31, 1<<32 + 1}).Draw(t, "bigfreq")
+			if len(mt.L) > 0 && big > 70000 {
+				// ice sizes its location slices by the frequency; a 2^31
+				// frequency WITH locations is a multi-gigabyte allocation, not a
+				// realistic input (recorded as out of scope in DESIGN.md §7.4)
+				big = 70000
+			}
+			mt.N = len(mt.L) + big
+		}
 		if mt.N == 0 {
 			mt.N = 1
 		}
@@ -178,7 +226,7 @@ func genField(t *rapid.T, s *schema) model.Field {
 	}
 	if rapid.IntRange(0, 2).Draw(t, "store") == 0 {
 		f.Store = true
-		f.Val = genValue(t)
+		f.Val = genValue(t, s)
 	}
 	return f
 }
@@ -202,7 +250,7 @@ func genBatch(t *rapid.T, s *schema, o *WorldOpts) []Item {
 			items = append(items, Item{Doc: &d})
 		}
 	}
-	if cls >= o.BigPct {
+	if cls >= o.BigPct || len(s.fields) > 20 {
 		if rapid.IntRange(0, 4).Draw(t, "small") == 0 {
 			explicit(7, 40, "nsmall")
 		} else {
@@ -213,11 +261,13 @@ func genBatch(t *rapid.T, s *schema, o *WorldOpts) []Item {
 	explicit(0, 3, "nhead")
 	var n int
 	if rapid.IntRange(0, 99).Draw(t, "huge") < o.HugePct {
-		n = rapid.SampledFrom([]int{1019, 1023, 1024, 1025, 1030, 1100, 2047, 2049, 2100}).Draw(t, "nhuge")
+		n = rapid.SampledFrom([]int{1019, 1023, 1024, 1025, 1030, 1100, 2047, 2048, 2049, 2100}).Draw(t, "nhuge")
 	} else {
 		n = rapid.SampledFrom([]int{120, 125, 126, 127, 128, 129, 130, 140, 250, 254, 255, 256, 257, 262}).Draw(t, "nblock")
 	}
 	nt := rapid.IntRange(1, 4).Draw(t, "ntmpl")
+	s.noXXL = true
+	defer func() { s.noXXL = false }()
 	rep := &Rep{N: n}
 	for i := 0; i < nt; i++ {
 		rep.Tmpl = append(rep.Tmpl, genDoc(t, s))
